@@ -66,6 +66,17 @@ func (e errReqModeSS) GetSessionState() string            { return e.ss }
 
 var standardErrors = []string{"invalid_request", "access_denied", "login_required", "interaction_required", "server_error", "unauthorized_client", "invalid_scope", "request_not_supported"}
 
+// newOIDCErrorFmt builds the error the way storages usually do: through WithDescription, whose first argument is a
+// printf format. variant 0 passes the text as the format itself, variant 1 as WithDescription("%s", text). The value
+// the provider *produced* is what the finished error says (e.Description), whatever the formatter made of the text.
+func newOIDCErrorFmt(typ, desc string, variant int) *oidc.Error {
+	e := newOIDCError(typ, "")
+	if variant == 0 {
+		return e.WithDescription(desc, []any{}...)
+	}
+	return e.WithDescription("%s", desc)
+}
+
 // newOIDCError builds a fresh *oidc.Error with an arbitrary error code (the field type is unexported, hence reflection).
 func newOIDCError(typ, desc string) *oidc.Error {
 	e := &oidc.Error{Description: desc}
@@ -209,17 +220,28 @@ func builderCase(run *ev.Run, i int) {
 		}
 		input["auth_request"] = map[string]any{"state": state, "session_state": ss, "capabilities": []string{"plain", "response_mode", "session_state", "response_mode+session_state"}[cap]}
 		var err error
-		if r.IntN(4) == 0 {
-			_, msg := genClassValue(r)
+		switch ek := r.IntN(8); {
+		case ek <= 2:
+			// a plain Go error: DefaultToServerError(err, err.Error()) makes it server_error and the description is what
+			// the error said - that is the value the provider produced
+			mc, msg := genClassValue(r)
 			if msg == "" {
-				msg = "boom"
+				msg = "disk 100% full"
 			}
 			err = errors.New(msg)
-			mainClass = "plain-error"
-			exp.Present = []string{"error"}
-			exp.AllowExtra["error_description"] = true
+			mainClass = mc + "/plain-error"
+			exp.Params = append(exp.Params, pair{"error", "server_error"}, pair{"error_description", msg})
 			input["error"] = map[string]any{"go_error": msg}
-		} else {
+		case ek == 3:
+			ec, code := genErrorCode(r)
+			c, desc := genClassValue(r)
+			variant := r.IntN(2)
+			mainClass = c + "/" + ec + "/WithDescription"
+			oe := newOIDCErrorFmt(code, desc, variant)
+			err = oe
+			exp.Params = append(exp.Params, pair{"error", code}, pair{"error_description", oe.Description})
+			input["error"] = map[string]any{"error": code, "with_description_text": desc, "as_format": variant == 0, "error_description": oe.Description}
+		default:
 			ec, code := genErrorCode(r)
 			c, desc := genClassValue(r)
 			mainClass = c + "/" + ec
